@@ -71,9 +71,12 @@ def include_flags():
 
 
 class Lock:
+    def __init__(self, name=".lock"):
+        self.name = name
+
     def __enter__(self):
         os.makedirs(BUILD, exist_ok=True)
-        self.f = open(os.path.join(BUILD, ".lock"), "w")
+        self.f = open(os.path.join(BUILD, self.name), "w")
         fcntl.flock(self.f, fcntl.LOCK_EX)
         return self
 
@@ -189,7 +192,7 @@ def ensure_harness(name, kind="rcfork", extra_flags=(), source=None):
         return out
     lib = ensure_lib("tsan" if kind == "tsan" else "san")
     eng = ensure_engine() if kind == "rcfork" else None
-    with Lock():
+    with Lock(".lock-" + name):
         if os.path.exists(out):
             return out
         os.makedirs(os.path.dirname(out), exist_ok=True)
